@@ -988,7 +988,7 @@ fn litmus() -> Vec<(&'static str, SchedCase)> {
     ]
 }
 
-pub const RULE: &str = "small concurrent programs (2-4 real threads x 1-6 ops over insert/get/contains_key/invalidate/invalidate_all/sync/clock-advance on 1-3 keys; capacity none/1..4, ttl, tti, weigher) whose schedule is a generated list of preemptions at library switch points; plus a fixed litmus catalogue enumerated exhaustively for <= 2 preemptions; non-trivial = >= 2 threads touched the same key, >= 1 of them wrote it, and >= 1 generated preemption actually took place; distinct = distinct (program, schedule) hash";
+pub const RULE: &str = "bounded-exhaustive small scope (every 2-thread program with 1-2 ops per thread over an alphabet of 8 operations x 3 initial states x 2 configurations, every schedule with at most one preemption; quick: a seed-dependent quarter of the programs, thorough: all) plus small concurrent programs (2-4 real threads x 1-6 ops over insert/get/contains_key/invalidate/invalidate_all/sync/clock-advance on 1-3 keys; capacity none/1..4, ttl, tti, weigher) whose schedule is a generated list of preemptions at library switch points; plus a fixed litmus catalogue enumerated exhaustively for <= 2 preemptions; non-trivial = >= 2 threads touched the same key, >= 1 of them wrote it, and >= 1 generated preemption actually took place; distinct = distinct (program, schedule) hash";
 
 pub fn nontrivial(prop: &str, st: &SchedStats) -> bool {
     match prop {
@@ -1072,6 +1072,15 @@ pub fn sched_worker(a: &WorkerArgs) -> WorkerResult {
     }
     res.classes.insert("exhaustive_litmus_schedules".into(), exhaustive_total);
     res.evaluations += exhaustive_total;
+
+    // ---- small scope: every 2-thread program over a tiny alphabet, every schedule with
+    // at most one preemption (the catalogue above goes to two) -------------------------
+    if res.violation.is_none() && prop != "C12" {
+        let (n, v) = small_scope(a, &prop, &inflight);
+        res.classes.insert("small_scope_schedules".into(), n);
+        res.evaluations += n;
+        res.violation = v;
+    }
 
     if res.violation.is_none() {
         let result = runner.run(&strategy, |case| {
@@ -1163,4 +1172,84 @@ pub fn replay(found: &Found, show: bool) -> Option<Violation> {
         }
     }
     r.violation
+}
+
+
+/// Bounded-exhaustive exploration: all programs of two threads with 1-2 operations
+/// each over a fixed alphabet of 8 operations, 3 initial states and 2 configurations,
+/// and for each program the unperturbed run plus every schedule with exactly one
+/// preemption. The programs are split over the workers; the quick tier takes every
+/// fourth program (which fourth depends on the seed), the thorough tier all of them.
+fn small_scope(a: &WorkerArgs, prop: &str, inflight: &std::path::Path) -> (u64, Option<Found>) {
+    let alphabet: Vec<TOp> = vec![
+        TOp::Insert { k: 0, w: 1 },
+        TOp::Insert { k: 0, w: 2 },
+        TOp::Insert { k: 1, w: 1 },
+        TOp::Get { k: 0 },
+        TOp::Invalidate { k: 0 },
+        TOp::InvalidateAll,
+        TOp::Sync,
+        TOp::Advance { ns: 1 },
+    ];
+    let mut progs: Vec<Vec<TOp>> = Vec::new();
+    for x in &alphabet {
+        progs.push(vec![x.clone()]);
+    }
+    for x in &alphabet {
+        for y in &alphabet {
+            progs.push(vec![x.clone(), y.clone()]);
+        }
+    }
+    let cfgs = [
+        Cfg { kind: Kind::Sync, cap: None, weigher: WeigherKind::Value, ttl: None, tti: None, hasher: HasherKind::Sip, init_cap: None, nkeys: 2 },
+        Cfg { kind: Kind::Sync, cap: Some(2), weigher: WeigherKind::Value, ttl: None, tti: None, hasher: HasherKind::Sip, init_cap: None, nkeys: 2 },
+    ];
+    let inits: [Vec<TOp>; 3] = [
+        vec![],
+        vec![TOp::Insert { k: 0, w: 1 }, TOp::Sync, TOp::Advance { ns: 1 }],
+        vec![TOp::Insert { k: 0, w: 1 }, TOp::Sync, TOp::Advance { ns: 501 * MS }],
+    ];
+    let stride: u64 = if a.thorough { 1 } else { 4 };
+    let mut total = 0u64;
+    let mut index = 0u64;
+    for cfg in &cfgs {
+        for init in &inits {
+            for p1 in &progs {
+                for p2 in &progs {
+                    index += 1;
+                    if index % a.nworkers != a.idx % a.nworkers {
+                        continue;
+                    }
+                    if (index / a.nworkers + a.seed) % stride != 0 {
+                        continue;
+                    }
+                    let base = SchedCase { cfg: cfg.clone(), init: init.clone(), threads: vec![p1.clone(), p2.clone()], preempt: vec![], first: 0 };
+                    for first in 0..2u8 {
+                        let b = SchedCase { first, ..base.clone() };
+                        let r0 = run_guarded(&b, prop, false);
+                        total += 1;
+                        if r0.violation.as_ref().map_or(false, |v| v.prop == prop) {
+                            return (total, Some(found(prop, &b, &run_guarded(&b, prop, true), "small scope")));
+                        }
+                        let len0 = r0.stats.steps;
+                        for s in 1..=len0 + 6 {
+                            let case = SchedCase { preempt: vec![(s, 0)], ..b.clone() };
+                            if total % 64 == 0 {
+                                let _ = std::fs::write(inflight, serde_json::to_vec(&case).unwrap());
+                            }
+                            let r = run_guarded(&case, prop, false);
+                            total += 1;
+                            if r.violation.as_ref().map_or(false, |v| v.prop == prop) {
+                                return (total, Some(found(prop, &case, &run_guarded(&case, prop, true), "small scope")));
+                            }
+                            if r.stats.used_preemptions == 0 && s > len0 {
+                                break;
+                            }
+                        }
+                    }
+                }
+            }
+        }
+    }
+    (total, None)
 }
